@@ -72,7 +72,7 @@ func kfNot(args []KeyBuilderStage) (KeyBuilderStage, error) {
 func kfAnd(args []KeyBuilderStage) (KeyBuilderStage, error) {
 	return KeyBuilderStage(func(context KeyBuilderContext) string {
 		for _, arg := range args {
-			if arg(context) == FalsyVal {
+			if !Truthy(arg(context)) {
 				return FalsyVal
 			}
 		}
@@ -84,7 +84,7 @@ func kfAnd(args []KeyBuilderStage) (KeyBuilderStage, error) {
 func kfOr(args []KeyBuilderStage) (KeyBuilderStage, error) {
 	return KeyBuilderStage(func(context KeyBuilderContext) string {
 		for _, arg := range args {
-			if arg(context) != FalsyVal {
+			if Truthy(arg(context)) {
 				return TruthyVal
 			}
 		}
